@@ -342,9 +342,9 @@ def _c16_stages0(tier):
     st = []
     nthr = [1, 2, 3, 4, 5, 8, 16] if tier == "thorough" else [1, 2, 3, 16]
     for t in nthr:
-        for nested in ((1, 2) if tier == "thorough" or t == 3 else (1,)):
+        for nested in ((1, 2) if (tier == "thorough" and t in (2, 3, 16)) or t == 3 else (1,)):
             env = {"OMP_NUM_THREADS": str(t), "OMP_MAX_ACTIVE_LEVELS": str(nested), "OMP_NESTED": "true" if nested > 1 else "false"}
-            st.append(S("host-gomp-asan", "func", ["--fam", OMP_FAM, "--mindim", "1100"], (14, 1500), (120, 2600), env=env, timeout=900))
+            st.append(S("host-gomp-asan", "func", ["--fam", OMP_FAM, "--mindim", "1100"], (14, 1500), (100, 2200), env=env, timeout=900))
     # small triple: the recursion (Strassen inside the four mp sections) is deep here
     for t in ([2, 4, 7] if tier == "thorough" else [4]):
         st.append(S("small-gomp-asan", "func", ["--fam", OMP_FAM], (150, 700), (2500, 1300), env={"OMP_NUM_THREADS": str(t)}, timeout=900))
